@@ -144,8 +144,9 @@ namespace pf
         n->icalls++;
         if (c < -128 || c > 255)
             n->ibad = true;
-        if (n->ibytes.size() < (size_t)CAP_LIMIT)
-            n->ibytes.push_back((char)c);
+        if (n->icalls > (uint64_t)CAP_LIMIT)
+            longjmp(n->outer->runaway, 2); // unbounded inner output: leave both activations (C frames only in between)
+        n->ibytes.push_back((char)c);
     }
     inline int ig_inner_v(Nest *n, const char *fmt, ...)
     {
